@@ -209,6 +209,7 @@ def run_case(ctx, case):
     def F(bucket, detail):
         ctx.fail(bucket, case, detail)
 
+    w = None
     try:
         mb = metabook.Collection(title="B")
         for title, rev in case["items"]:
@@ -339,6 +340,13 @@ def run_case(ctx, case):
         for mod, attr, old in patched:
             setattr(mod, attr, old)
         fetch._get_download_client = old_client
+        # every SqliteDict of the archive runs a thread of its own: close them, or tens of thousands of cases exhaust the process
+        for name in ("authors", "html", "imageinfo"):
+            db = getattr(getattr(w, "nuwiki", None), name, None)
+            try:
+                getattr(db, "database", db).close()
+            except Exception:
+                pass
         shutil.rmtree(out, ignore_errors=True)
     return labels
 
